@@ -401,7 +401,7 @@ def evaluate(ctx, items, cfgs):
 
 
 def run(ctx):
-    corr = evaluate(ctx, gen(ctx), ["dbg"] if ctx.quick else ["dbg", "rel"])
+    corr = evaluate(ctx, gen(ctx), ["dbg", "rel"])
     from harness import ldlib
     ldlib.part(ctx, corr, ["clamp", "backup", "affine"], "config_chain", cfgs=("dbg",))      # configurations in long double read back exactly
     return corr
